@@ -172,4 +172,18 @@ def parseSetup (t : IPType) (stripVlan : Bool) (argIf : String) (podIngress podE
           trunk := c.trunk, vid := c.vid, dp := getDataPath t stripVlan c.trunk }
   | _, _ => .error ()
 
+/-! ## CRD mode: which interface an allocation result describes (pkg/eni/crdv2.go `multiIP`) -/
+
+structure CrdEni where
+  id : String
+  inUse : Bool
+  /-- address, valid, bound pod ("" = nobody) -/
+  ips : List (Nat × Bool × String)
+  deriving Repr
+
+/-- the interface whose subnet, gateway and MAC the result carries: the in-use interface that holds a valid address
+    bound to the pod (at most one interface does, C02) -/
+def crdOwner (enis : List CrdEni) (pod : String) : Option String :=
+  (enis.find? fun e => e.inUse && e.ips.any fun a => a.2.1 && a.2.2 == pod).map (·.id)
+
 end Terway.NetConf
